@@ -90,12 +90,34 @@ class Post(object):
             return {f: open(os.path.join(p, f), 'rb').read() for f in sorted(os.listdir(p))}
         if fname == 'filter_output':
             g, b = self.path('good'), self.path('bad')
+            self.nfo = getattr(self, 'nfo', 0) + 1
+            if self.nfo % 2 == 0:
+                # every other call writes to the same pair of names as an earlier call (made with another threshold or another form
+                # of input): what that call left behind must not show up in this one's outputs
+                g, b = os.path.join(self.d, 'good_same_name'), os.path.join(self.d, 'bad_same_name')
+                self.ctx.event('filter_output:output-names-re-used')
             thr = sel[1] if sel[0] in 'CD' else 5.0
             filter_output(inp, output_good=g, output_bad=b, chi=float(thr) + 0.123)
             from ..props.c19 import read_all
             out = []
             for pth in (g, b):
                 out.append([] if (not os.path.exists(pth) or os.path.getsize(pth) == 0) else read_all(pth))      # no file = no records
+            try:
+                if isinstance(inp, str):
+                    expect = [r_['source']['name'] for r_ in read_all(inp)]
+                elif hasattr(inp, 'source'):
+                    expect = [inp.source.name]
+                else:
+                    expect = [x_.source.name for x_ in inp]
+            except Exception:
+                expect = None
+            if expect is not None:
+                names_out = sorted(r_['source']['name'] for x_ in out for r_ in x_)
+                if names_out != sorted(expect):
+                    self.ctx.violation('post:filter_output:outputs-not-a-partition-of-the-input',
+                                       'the two outputs of filter_output together do not hold every input source exactly once',
+                                       {'input_sources': sorted(expect), 'in_outputs': names_out, 'threshold': float(thr) + 0.123,
+                                        'names_re_used': self.nfo % 2 == 0})
             return out
         if fname in ('plot_params_1d', 'plot_params_2d'):
             import matplotlib.pyplot as plt
@@ -145,7 +167,7 @@ def run(ctx):
                 'same in-memory results vs on the file. a case = one fit() run or one post-processing comparison; non-trivial = >=2 records or >=2 calls')
     ctx.assume('records are compared bit-exact NaN-aware with an independent Fitter(...).fit on the same line',
                'a run that writes no record is not generated (zero-byte file: nothing claimed)', 'filter_output is not driven on files holding a record with zero selected fits (no best chi^2 to classify)', 'plot_params_1d/2d (PNG renderers) are driven in the thorough tier only: files produced and unchanged inputs are compared, not the rendering')
-    ctx.require_events('trace:fit-run', 'record:compared', 'meta:compared', 'forms:file-vs-list', 'forms:file-vs-object', 'sequence:compared', 'unchanged:checked', 'sequence:written-then-read')
+    ctx.require_events('trace:fit-run', 'record:compared', 'meta:compared', 'forms:file-vs-list', 'forms:file-vs-object', 'sequence:compared', 'unchanged:checked', 'sequence:written-then-read', 'filter_output:output-names-re-used')
     ctx.require_regimes('model_dir:not-in-canonical-spelling', 'list-from-two-reads', 'post:plot-with-stored-predictions')
     ctx.require_regimes('skipped-sources', 'output_convolved', 'no-output_convolved', 'mode:2d', 'mode:3d', 'style:v1', 'style:v2',
                         'first-line-ineligible', 'short-line-ends-input', 'duplicate-source-name')
